@@ -18,7 +18,8 @@ RULE = ('Hypothesis-generated function bodies (ordinary / you / defeat flavour; 
         'from a control-flow grammar: sequences, if/else chains, while with literal-true, foldable-true and run-time '
         'conditions, for(;;), counted for loops, break/continue at any depth including inside try bodies, handlers and '
         'preempt blocks, returns, !is_defeat(), !truth_is_defeat, calls of user defeat functions (as statements and inside '
-        'expressions), all_is_win(), all_is_broken(), try/undo, try/stop, preempt; print probes after every construct. '
+        'expressions), all_is_win(), all_is_broken(), user overloads that share those names but return, try/undo, try/stop, '
+        'preempt; print probes after every construct. '
         'Each function is followed in the output by a tell-tale function and is called on several argument vectors. '
         'Oracles: (i) accepted programs: a replay monitor flags any sequential flow from the code of one function into the '
         'first instruction of another, and the committed event stream must equal the reference interpreter\'s (dropped code '
@@ -46,6 +47,7 @@ class G:
         self.counters = 0
         self.budget = 14
         self.uses_d = False
+        self.uses_fake = False
 
     def i(self, lo, hi):
         return self.draw(st.integers(lo, hi))
@@ -107,7 +109,7 @@ class G:
                 opts += [(6, 'is_defeat'), (6, 'truth'), (6, 'dcall'), (7, 'dcall_expr'), (7, 'preempt')]
         if self.flavor == '@' and not self.in_try:
             opts += [(12, 'try')]
-        opts += [(2, 'terminal'), (3, 'array')]
+        opts += [(2, 'terminal'), (3, 'array'), (4, 'fake_terminal')]
         total = sum(w for w, _ in opts)
         r = self.i(0, total - 1)
         for w, k in opts:
@@ -206,6 +208,13 @@ class G:
         if k == 'terminal':
             s_ = ExprStmt(Call(self.pick(['all_is_win', 'all_is_broken']), [], t=EMPTY))
             return [If(self.cond(), Block([self.tag(), s_]), None)] if self.i(0, 3) else [s_, self.tag()]
+        if k == 'fake_terminal':
+            # user overloads that merely share a terminal built-in's name: they return normally
+            self.uses_fake = True
+            name, arg = self.pick([('all_is_win', Var('a', t=INT)), ('all_is_broken', Lit('string', b'why', None, t=STRING)),
+                                   ('all_is_win', Lit('int', 7, None, t=INT))])
+            s_ = ExprStmt(Call(name, [arg], t=EMPTY))
+            return [s_, self.tag()] if self.i(0, 2) else [If(self.cond(), Block([s_]), None), self.tag()]
         if k == 'array':
             self.counters += 1
             v = 'z%d' % self.counters
@@ -243,7 +252,9 @@ def function_case(draw):
         ExprStmt(Call('write', [Lit('string', b'<dh>', None, t=STRING)], t=EMPTY)),
         ExprStmt(Call('!truth_is_defeat', [Bin('>', Var('x', t=INT), Lit('int', 1, None, t=INT), t=BOOL)], t=EMPTY)),
         Return(Bin('+', Var('x', t=INT), Lit('int', 1, None, t=INT), t=INT))]))
-    funcs = [main, fut, telltale] + ([dh] if g.uses_d else [])
+    fakes = [Func(EMPTY, 'all_is_win', [Param(INT, False, 'x')], Block([ExprStmt(Call('write', [Lit('string', b'<aiw>', None, t=STRING)], t=EMPTY))])),
+             Func(EMPTY, 'all_is_broken', [Param(STRING, False, 'why')], Block([ExprStmt(Call('write', [Var('why', t=STRING)], t=EMPTY))]))]
+    funcs = [main, fut, telltale] + ([dh] if g.uses_d else []) + (fakes if g.uses_fake else [])
     inputs = draw(st.lists(st.tuples(st.integers(-1, 4), st.integers(-1, 4)), min_size=3, max_size=5, unique=True))
     return Program([], funcs), inputs, draw(st.sampled_from([2, 2, 4])), flavor, ret
 
@@ -273,7 +284,7 @@ def cannot_complete(stmts):
     for s in stmts:
         if isinstance(s, Return):
             return True
-        if isinstance(s, ExprStmt) and isinstance(s.e, Call) and s.e.name in ('!is_defeat', 'all_is_win', 'all_is_broken'):
+        if isinstance(s, ExprStmt) and isinstance(s.e, Call) and s.e.name in ('!is_defeat', 'all_is_win', 'all_is_broken') and not s.e.args:
             return True
         if isinstance(s, If) and s.els is not None and cannot_complete(s.then.stmts) and cannot_complete(s.els.stmts):
             return True
